@@ -33,7 +33,7 @@ static void rehash(HashMap *map) {
       nkeys++;
 
   int cap = map->capacity;
-  while ((nkeys * 100) / cap >= LOW_WATERMARK)
+  while (((long)nkeys * 100) / cap >= LOW_WATERMARK)
     cap = cap * 2;
   assert(cap > 0);
 
@@ -77,7 +77,7 @@ static HashEntry *get_or_insert_entry(HashMap *map, char *key, int keylen) {
   if (!map->buckets) {
     map->buckets = calloc(INIT_SIZE, sizeof(HashEntry));
     map->capacity = INIT_SIZE;
-  } else if ((map->used * 100) / map->capacity >= HIGH_WATERMARK) {
+  } else if (((long)map->used * 100) / map->capacity >= HIGH_WATERMARK) {
     rehash(map);
   }
 
